@@ -187,17 +187,62 @@ def fresh_provider_ok(cx, site, hole, term, rep, where):
 
 
 def check_fresh_provider(cx, f):
-    """accepts: a loop (while/loop/for) whose exit is conditioned on `params.iter().any(|p| .. == candidate)` /
-    `.all(.. != ..)` style comparison over the generics parameter list passed in."""
+    """A fresh-name provider must (i) loop while its candidate equals the identifier of some parameter of the
+    type's generics — comparing against *type and const* parameters (lifetimes live in another namespace) —
+    and (ii) return an identifier built from that same candidate."""
+    from ..syn import es, pat_s, walk_json
     fw = cx.fw(f)
-    has_loop = any(ev.kind in ('loop', 'for') for ev in fw.events)
-    compares = False
-    for ev in fw.events:
-        if ev.kind == 'mcall' and ev.method in ('any', 'all', 'contains', 'find', 'position'):
-            compares = True
-    takes_generics = any('Generics' in __import__('sa.syn', fromlist=['ty_s']).ty_s(p[1]) or 'GenericParam' in __import__('sa.syn', fromlist=['ty_s']).ty_s(p[1])
-                         for p in f.params() if p[1] is not None)
-    return has_loop and compares and takes_generics
+    loops = [ev for ev in fw.events if ev.kind == 'loop']
+    if len(loops) != 1:
+        return False
+    lp = loops[0].node
+    cond = lp.get('cond')
+    if cond is None:
+        return False
+    # cond: <generics params iter>.any(|param| <compares param ident with candidate>)
+    c = cond
+    if not (c['k'] == 'MethodCall' and c['method'] == 'any' and len(c['args']) == 1 and c['args'][0]['k'] == 'Closure'):
+        return False
+    src = es(c['recv']).replace(' ', '')
+    if 'generics.params' not in src:
+        return False
+    clo = c['args'][0]
+    body = clo['body']
+    cand = None
+    kinds_compared = set()
+    if body['k'] == 'Match':
+        for a in body['arms']:
+            ps = pat_s(a['pat'])
+            b = a['body']
+            if b['k'] == 'Binary' and b['op'] == '==':
+                side = es(b['r_'])
+                cand = cand or side
+                if side != cand or not es(b['l_']).endswith('.ident'):
+                    return False
+                for kname in ('Type', 'Const', 'Lifetime'):
+                    if 'GenericParam::' + kname in ps:
+                        kinds_compared.add(kname)
+            elif b['k'] == 'Lit' and b['lit'].get('v') is False:
+                if 'GenericParam::Type' in ps or 'GenericParam::Const' in ps or ps == '_':
+                    return False
+            else:
+                return False
+        if not {'Type', 'Const'} <= kinds_compared:
+            return False
+    else:
+        return False
+    # the loop body must extend the candidate
+    body_txt = es(lp['body']).replace(' ', '')
+    if not (('%s.push(' % cand) in body_txt or ('%s.push_str(' % cand) in body_txt):
+        return False
+    # the returned identifier is built from the candidate
+    tail = fw.tail
+    if tail is None:
+        return False
+    tt = es(tail).replace(' ', '')
+    if cand not in tt:
+        return False
+    return True
 
 
 def derived_binder_formats(cx, fn):
